@@ -92,6 +92,7 @@ type Pipe struct {
 	rq        simsync.WaitQ
 	Weight    float64
 	Partial   bool
+	Manual    bool // delivery only through ManualDeliver (scripted segmentation)
 	stalled   time.Time
 	Written   int64
 	Delivered int64
@@ -169,7 +170,7 @@ func (n *Net) options() []simsync.Option {
 	var ps []*Pipe
 	for _, l := range n.links {
 		for _, p := range l.Dir {
-			if len(p.inflight) > 0 && !p.rst && !now.Before(p.stalled) {
+			if len(p.inflight) > 0 && !p.rst && !p.Manual && !now.Before(p.stalled) {
 				ps = append(ps, p)
 			}
 		}
@@ -250,6 +251,46 @@ func (n *Net) deliver(p *Pipe, param int) {
 	p.Delivered += int64(len(b))
 	n.checkByteScripts(p)
 	p.rq.Wake()
+}
+
+// ManualDeliver hands the next k in-flight bytes of p (across write
+// boundaries) to the reader as one segment; k<0 delivers everything.
+func (n *Net) ManualDeliver(p *Pipe, k int) int {
+	n.mu.Lock()
+	defer n.mu.Unlock()
+	moved := 0
+	for len(p.inflight) > 0 && (k < 0 || moved < k) {
+		s := &p.inflight[0]
+		take := len(s.b)
+		if k >= 0 && moved+take > k {
+			take = k - moved
+		}
+		p.delivered = append(p.delivered, s.b[:take]...)
+		moved += take
+		if take == len(s.b) {
+			p.inflight = p.inflight[1:]
+			p.segSeq++
+		} else {
+			s.b = s.b[take:]
+		}
+	}
+	p.Delivered += int64(moved)
+	if moved > 0 {
+		n.fired("segment_cut")
+	}
+	p.rq.Wake()
+	return moved
+}
+
+// InFlight is the number of written but undelivered bytes on p.
+func (n *Net) InFlight(p *Pipe) int {
+	n.mu.Lock()
+	defer n.mu.Unlock()
+	t := 0
+	for _, s := range p.inflight {
+		t += len(s.b)
+	}
+	return t
 }
 
 func (n *Net) checkByteScripts(p *Pipe) {
